@@ -27,6 +27,9 @@ pub fn panic_kind(p: &Box<dyn Any + Send>) -> (&'static str, String) {
     else if msg.starts_with("BUG") { "bug" }
     else if msg.starts_with("harness") { "harness" }
     else { "other" };
+  // the directory of this run's file resources is unique per run: keep it out of the message (replays are compared)
+  let dir = world::with(|w| w.file_dir.to_string_lossy().to_string());
+  let msg = if dir.is_empty() { msg } else { msg.replace(&dir, "<files>") };
   let short: String = msg.chars().take(80).collect();
   (kind, short)
 }
